@@ -33,9 +33,9 @@ def make_cfg(seed, i):
     rng = engine.rng_for(seed, NUM, i)
     r = rng.random
     fam = i % 5
-    allow = ("restarts", "regression", "tols")
+    allow = ("restarts", "regression", "tols", "rare")
     if fam == 3:
-        allow = ("restarts", "growing", "tols")
+        allow = ("restarts", "growing", "tols", "rare")
     cfg = campaign.gen_cfg(rng, noise_p=0.15, averaging_p=0.15, box_p=0.5, proj_p=0.0, reg_p=0.0, restarts_p=0.55, nmax=5, mmax=8,
                            kinds=("linear", "sinlin", "exp", "rosen", "quadres"), allow=allow, npt_p=0.4, term_p=0.15,
                            maxfuns=(15, 30, 60, 120, 250))
